@@ -30,7 +30,7 @@ class DiskConstants(object):
     POSTAMBLE_LEN = 5
     IMAGE_SIZE = 161280
     GRANULE_FILL_ORDER = [
-        32, 33, 34, 35, 30, 31, 36, 37, 28, 29, 38, 39, 26, 25, 40, 41, 24, 25, 42, 43,
+        32, 33, 34, 35, 30, 31, 36, 37, 28, 29, 38, 39, 26, 27, 40, 41, 24, 25, 42, 43,
         22, 23, 40, 41, 20, 21, 42, 43, 18, 19, 44, 45, 16, 17, 46, 47, 14, 15, 48, 49,
         12, 13, 50, 51, 10, 11, 52, 53, 8, 9, 54, 55, 6, 7, 56, 57, 4, 5, 58, 59, 2, 3,
         60, 61, 0, 1, 62, 63, 64, 65, 66, 67
